@@ -6,6 +6,8 @@ search, FilesLastIndex, SkipCheckpointFiles, FilesFromLastCheckpoint). Theorems 
 and revision tables of any length.
 -/
 import Lemmas.Pending
+import Lemmas.ExecRevs
+import Atlas.SetVersion
 import Props.C09
 
 namespace Props.C11
@@ -97,16 +99,18 @@ theorem bsearch_found {α : Type} [Inhabited α] (key : α → String) (l : List
   · rw [hk]; simp
   · simp [hk]
 
-/-- what the C09 invariant knows about the revision table, in list form: the files of `pre` are
-completely recorded (one revision each, in order), and the first file of `rest` may have a partial
-revision. -/
+/-- a linear history: the files of `pre` are recorded (one revision each, in directory order; only the
+LAST revision matters to `Pending`: it must not be partially applied – completely applied or marked
+resolved), or the first file of `rest` carries a partial revision after them. The inner revisions may
+be anything (e.g. a failed file that `migrate set` stepped over). -/
 structure LinearState (pre rest : List MFile) (revs : List Revision) : Prop where
   nock : ∀ f ∈ pre ++ rest, f.checkpoint = false
   sorted : SortedV (pre ++ rest)
   shape :
-    (revs.map (·.version) = pre.map (·.version) ∧ ∀ r ∈ revs, r.partially = false) ∨
+    (revs.map (·.version) = pre.map (·.version) ∧
+      ∀ last, revs.getLast? = some last → last.partially = false) ∨
     (∃ m post rs rp, rest = m :: post ∧ revs = rs ++ [rp] ∧ rs.map (·.version) = pre.map (·.version) ∧
-      (∀ r ∈ rs, r.partially = false) ∧ rp.version = m.version ∧ rp.partially = true)
+      rp.version = m.version ∧ rp.partially = true)
 
 theorem sorted_lt_of_append {pre rest : List MFile} (hs : SortedV (pre ++ rest)) :
     ∀ a ∈ pre, ∀ b ∈ rest, a.version < b.version := by
@@ -148,7 +152,7 @@ theorem pending_linear (cfg : Cfg) (pre rest : List MFile) (revs : List Revision
     (pending cfg (pre ++ rest) revs).out = (if rest = [] then .error .noPending else .ok rest) := by
   have hskip : skipCheckpoints (pre ++ rest) = pre ++ rest := skip_nock st.nock
   have hlt := sorted_lt_of_append st.sorted
-  rcases st.shape with ⟨hv, hcomp⟩ | ⟨m, post, rs, rp, hrest, hrevs, hv, hcomp, hrpv, hrpa⟩
+  rcases st.shape with ⟨hv, hcomp⟩ | ⟨m, post, rs, rp, hrest, hrevs, hv, hrpv, hrpa⟩
   · -- every revision complete
     cases hrl : revs.getLast? with
     | none =>
@@ -170,7 +174,7 @@ theorem pending_linear (cfg : Cfg) (pre rest : List MFile) (revs : List Revision
         cases revs with
         | nil => simp at hrl
         | cons a l => exact ⟨a, rfl⟩
-      have hla : last.partially = false := hcomp last (List.mem_of_getLast? hrl)
+      have hla : last.partially = false := hcomp last hrl
       -- pre = pre' ++ [ml], ml.version = last.version
       have hpne : pre ≠ [] := by
         intro h; subst h
@@ -296,6 +300,41 @@ theorem pending_linear (cfg : Cfg) (pre rest : List MFile) (revs : List Revision
     · simp [pending, hrl, hr0, hskip, hne, hpa, hbs, hm, hnorm, finish]
 
 
+
+/-! ### a partially applied checkpoint -/
+
+/-- **partial_checkpoint_resumes**: the last revision is partially applied (and not resolved) and its
+file is a checkpoint of the (version-sorted) directory: `Pending` returns that checkpoint file first
+and then every later file that is not a checkpoint – for every execution order, whatever other
+revisions exist; nothing is written. -/
+theorem partial_checkpoint_resumes (cfg : Cfg) (pre post : List MFile) (ck : MFile)
+    (revs : List Revision) (last : Revision)
+    (hs : SortedV (pre ++ ck :: post)) (hck : ck.checkpoint = true)
+    (hlast : revs.getLast? = some last) (hp : last.partially = true) (hv : last.version = ck.version) :
+    pending cfg (pre ++ ck :: post) revs = ⟨none, .ok (ck :: skipCheckpoints post)⟩ := by
+  obtain ⟨r0, hr0⟩ : ∃ r0, revs.head? = some r0 := by
+    cases revs with
+    | nil => simp at hlast
+    | cons a l => exact ⟨a, rfl⟩
+  have hne : (pre ++ ck :: post).isEmpty = false := by cases pre <;> rfl
+  have hbs : bsearch (fun (f : MFile) => decide (f.version < last.version))
+      (fun (f : MFile) => f.version == last.version) (pre ++ ck :: post) = (pre.length, true) := by
+    apply bsearch_found (fun (f : MFile) => f.version) (pre ++ ck :: post) hs last.version pre.length (by simp)
+    simp [hv]
+  have hget : (pre ++ ck :: post)[pre.length]! = ck := by simp
+  have hdrop : (pre ++ ck :: post).drop pre.length = ck :: post := by simp
+  have hskip : skipCheckpoints (ck :: post) = skipCheckpoints post := by
+    unfold skipCheckpoints; simp [hck]
+  simp only [pending, hlast, hr0, hp, hne, Bool.not_false, Bool.and_true, if_true, hbs, hget, hck,
+    hdrop, hskip]
+
+/-- non-vacuity: checkpoint `2` partially applied, an older file and a later checkpoint around it. -/
+example :
+    (match (pending {} [⟨"1_a.sql", "1", "a", [], false, ""⟩, ⟨"2_c.sql", "2", "c", [], true, ""⟩,
+        ⟨"3_b.sql", "3", "b", [], false, ""⟩, ⟨"4_c.sql", "4", "c", [], true, ""⟩, ⟨"5_b.sql", "5", "b", [], false, ""⟩]
+      [{ version := "2", applied := 1, total := 3 }]).out with
+     | .ok l => l.map (·.version) | .error _ => []) = ["2", "3", "5"] := by decide
+
 /-! ### `migrate set`: a resolved revision counts as applied -/
 
 theorem complete_not_partially (r : Revision) (h : r.applied = r.total) : r.partially = false := by
@@ -315,7 +354,7 @@ theorem set_agrees (cfg : Cfg) (pre rest : List MFile) (revs : List Revision)
     (hdone : ∀ r ∈ revs, r.applied = r.total ∨ r.resolved = true) :
     (pending cfg (pre ++ rest) revs).out = (if rest = [] then .error .noPending else .ok rest) :=
   (pending_linear cfg pre rest revs hb hc
-    ⟨nock, sorted, .inl ⟨hv, fun r hr => (hdone r hr).elim (complete_not_partially r) (resolved_not_partially r)⟩⟩).2
+    ⟨nock, sorted, .inl ⟨hv, fun r hr => (hdone r (List.mem_of_getLast? hr)).elim (complete_not_partially r) (resolved_not_partially r)⟩⟩).2
 
 /-- non-vacuity: version 1 failed after one of two statements and was then `set`; version 2 is what runs. -/
 example :
@@ -406,5 +445,617 @@ theorem baseline_skips_le (cfg : Cfg) (all pre post : List MFile) (b : MFile)
   cases post <;> simp
 
 
+
+/-! ### link to C09: the states the executor reaches are linear states
+
+`Props.C09` describes one attempt with the specification `pendingSpec` (everything from the first file
+that is not completely recorded). The theorems below show that in every state described by the C09
+invariant the real decision procedure `Pending.pending` returns exactly that list, so the C09 theorems
+hold for `Atlas.Exec.executeN` – the function the correspondence run ties to `(*Executor).ExecuteN`. -/
+
+open Atlas.Exec in
+theorem sorted_ext : ∀ (l1 l2 : List String), l1.Pairwise (· < ·) → l2.Pairwise (· < ·) →
+    (∀ x, x ∈ l1 ↔ x ∈ l2) → l1 = l2 := by
+  intro l1
+  induction l1 with
+  | nil =>
+    intro l2 _ _ h
+    cases l2 with
+    | nil => rfl
+    | cons b t => exact absurd ((h b).mpr (List.mem_cons_self ..)) (by simp)
+  | cons a t1 ih =>
+    intro l2 h1 h2 h
+    cases l2 with
+    | nil => exact absurd ((h a).mp (List.mem_cons_self ..)) (by simp)
+    | cons b t2 =>
+      rw [List.pairwise_cons] at h1 h2
+      have hab : a = b := by
+        rcases List.mem_cons.mp ((h a).mp (List.mem_cons_self ..)) with e | ha
+        · exact e
+        · rcases List.mem_cons.mp ((h b).mpr (List.mem_cons_self ..)) with e | hb
+          · exact e.symm
+          · exact absurd (h2.1 a ha) (String.lt_asymm (h1.1 b hb))
+      subst hab
+      congr 1
+      apply ih t2 h1.2 h2.2
+      intro x
+      constructor
+      · intro hx
+        rcases List.mem_cons.mp ((h x).mp (List.mem_cons_of_mem _ hx)) with e | hx2
+        · subst e; exact absurd (h1.1 x hx) (String.lt_irrefl _)
+        · exact hx2
+      · intro hx
+        rcases List.mem_cons.mp ((h x).mpr (List.mem_cons_of_mem _ hx)) with e | hx1
+        · subst e; exact absurd (h2.1 x hx) (String.lt_irrefl _)
+        · exact hx1
+
+theorem eq_of_version_eq : ∀ (l : List Revision), (l.map (·.version)).Pairwise (· < ·) →
+    ∀ r r', r ∈ l → r' ∈ l → r.version = r'.version → r = r' := by
+  intro l
+  induction l with
+  | nil => intro _ r _ h; cases h
+  | cons a t ih =>
+    intro hs r r' hr hr' hv
+    rw [List.map_cons, List.pairwise_cons] at hs
+    rcases List.mem_cons.mp hr with rfl | hr1 <;> rcases List.mem_cons.mp hr' with rfl | hr2
+    · rfl
+    · exact absurd (hv ▸ hs.1 _ (List.mem_map_of_mem hr2)) (String.lt_irrefl _)
+    · exact absurd (hv ▸ hs.1 _ (List.mem_map_of_mem hr1)) (String.lt_irrefl _)
+    · exact ih hs.2 r r' hr1 hr2 hv
+
+theorem findRev_none_iff (v : String) (revs : List Revision) :
+    Atlas.Exec.findRev v revs = none ↔ v ∉ revs.map (·.version) := by
+  unfold Atlas.Exec.findRev
+  rw [List.find?_eq_none]
+  constructor
+  · intro h hv
+    obtain ⟨r, hr, rfl⟩ := List.mem_map.mp hv
+    exact absurd (h r hr) (by simp)
+  · intro h r hr
+    simp only [beq_iff_eq]
+    intro e
+    exact h (List.mem_map.mpr ⟨r, hr, e⟩)
+
+open Atlas.Exec in
+/-- a row the executor wrote is never "resolved". -/
+theorem good_not_resolved {dir : List MFile} {r : Revision} (h : Good dir r) : r.resolved = false := by
+  unfold Revision.resolved; rw [h.1]; decide
+
+open Atlas.Exec in
+/-- **linear_of_dinv**: every state described by the C09 invariant, with the reachable shape of the
+revision table, is a linear state in the sense of `pending_linear`. -/
+theorem linear_of_dinv {H : Text → String} {pre rest : List MFile} {w : World} {a e k : Nat}
+    (inv : DInv H pre rest w a e k) (hr : RInv (pre ++ rest) w.revs)
+    (nock : ∀ f ∈ pre ++ rest, f.checkpoint = false) (hs : SortedV (pre ++ rest)) :
+    LinearState pre rest w.revs := by
+  refine ⟨nock, hs, ?_⟩
+  have hsorted := hs
+  unfold SortedV at hsorted
+  rw [List.map_append, List.pairwise_append] at hsorted
+  obtain ⟨hspre, hsrest, hcross⟩ := hsorted
+  -- rows of completely recorded files
+  have hcomplete : ∀ r ∈ w.revs, r.version ∈ pre.map (·.version) → r.partially = false := by
+    intro r hrm hv
+    obtain ⟨m, hm, hmv⟩ := List.mem_map.mp hv
+    obtain ⟨r', h1, h2, h3⟩ := inv.done m hm
+    have hr' := findRev_mem h1
+    have : r' = r := eq_of_version_eq _ hr.sorted r' r hr'.1 hrm (by rw [hr'.2, hmv])
+    subst this
+    exact complete_not_partially _ (by rw [h2, h3])
+  have hpre_in : ∀ v ∈ pre.map (·.version), v ∈ w.revs.map (·.version) := by
+    intro v hv
+    obtain ⟨m, hm, rfl⟩ := List.mem_map.mp hv
+    obtain ⟨r', h1, _, _⟩ := inv.done m hm
+    have hr' := findRev_mem h1
+    exact List.mem_map.mpr ⟨r', hr'.1, hr'.2⟩
+  cases rest with
+  | nil =>
+    left
+    have hv : w.revs.map (·.version) = pre.map (·.version) := by
+      apply sorted_ext _ _ hr.sorted hspre
+      intro x
+      constructor
+      · intro hx
+        obtain ⟨r, hrm, rfl⟩ := List.mem_map.mp hx
+        obtain ⟨_, m, hm, hmv⟩ := hr.good r hrm
+        rw [List.append_nil] at hm
+        exact List.mem_map.mpr ⟨m, hm, hmv⟩
+      · exact hpre_in x
+    exact ⟨hv, fun r hl => hcomplete r (List.mem_of_getLast? hl) (hv ▸ List.mem_map_of_mem (List.mem_of_getLast? hl))⟩
+  | cons m post =>
+    obtain ⟨hrec, _, hst, hpost⟩ := inv.cur
+    have hmlt : ∀ v ∈ pre.map (·.version), v < m.version :=
+      fun v hv => hcross v hv m.version (by simp)
+    -- a row belongs to a file of `pre` or to `m`
+    have hwhere : ∀ r ∈ w.revs, r.version ∈ pre.map (·.version) ∨ r.version = m.version := by
+      intro r hrm
+      obtain ⟨_, m0, hm0, hmv⟩ := hr.good r hrm
+      rcases List.mem_append.mp hm0 with hp | hp
+      · exact Or.inl (List.mem_map.mpr ⟨m0, hp, hmv⟩)
+      · rcases List.mem_cons.mp hp with rfl | hp'
+        · exact Or.inr hmv.symm
+        · have := (findRev_none_iff m0.version w.revs).mp (hpost m0 hp')
+          exact absurd (List.mem_map.mpr ⟨r, hrm, hmv.symm⟩) this
+    cases hf : findRev m.version w.revs with
+    | none =>
+      left
+      have hnot := (findRev_none_iff m.version w.revs).mp hf
+      have hv : w.revs.map (·.version) = pre.map (·.version) := by
+        apply sorted_ext _ _ hr.sorted hspre
+        intro x
+        constructor
+        · intro hx
+          obtain ⟨r, hrm, rfl⟩ := List.mem_map.mp hx
+          rcases hwhere r hrm with h | h
+          · exact h
+          · exact absurd (h ▸ List.mem_map_of_mem hrm) hnot
+        · exact hpre_in x
+      exact ⟨hv, fun r hl => hcomplete r (List.mem_of_getLast? hl) (hv ▸ List.mem_map_of_mem (List.mem_of_getLast? hl))⟩
+    | some rp =>
+      right
+      have hrp := findRev_mem hf
+      -- the row of `m` is partial
+      have hpart : rp.partially = true := by
+        rcases hrec with ⟨hn, _⟩ | ⟨r, h1, h2, h3, _⟩
+        · rw [hn] at hf; cases hf
+        · rw [hf] at h1
+          cases h1
+          have hlt : a < m.stmts.length := by
+            rcases hst with h | h
+            · exact h
+            · rw [h] at hf; cases hf
+          unfold Revision.partially
+          rw [good_not_resolved (hr.good rp hrp.1)]
+          simp
+          omega
+      have hv : w.revs.map (·.version) = pre.map (·.version) ++ [m.version] := by
+        apply sorted_ext _ _ hr.sorted
+        · rw [List.pairwise_append]
+          exact ⟨hspre, by simp, fun x hx y hy => by simp at hy; subst hy; exact hmlt x hx⟩
+        · intro x
+          constructor
+          · intro hx
+            obtain ⟨r, hrm, rfl⟩ := List.mem_map.mp hx
+            rcases hwhere r hrm with h | h
+            · exact List.mem_append_left _ h
+            · exact List.mem_append_right _ (by simp [h])
+          · intro hx
+            rcases List.mem_append.mp hx with h | h
+            · exact hpre_in x h
+            · simp at h; subst h
+              exact List.mem_map.mpr ⟨rp, hrp.1, hrp.2⟩
+      have hne : w.revs ≠ [] := by
+        intro h; rw [h] at hv; simp at hv
+      have hsplit : w.revs = w.revs.dropLast ++ [w.revs.getLast hne] :=
+        (List.dropLast_concat_getLast hne).symm
+      have hv2 : (w.revs.dropLast).map (·.version) ++ [(w.revs.getLast hne).version] =
+          pre.map (·.version) ++ [m.version] := by
+        rw [← hv]; conv => rhs; rw [hsplit]
+        simp
+      have hinj := List.append_inj' hv2 rfl
+      have hlast : w.revs.getLast hne = rp :=
+        eq_of_version_eq _ hr.sorted _ _ (List.getLast_mem hne) hrp.1 (by
+          have := hinj.2; simp at this; rw [this, hrp.2])
+      exact ⟨m, post, w.revs.dropLast, rp, rfl, by rw [← hlast]; exact hsplit, hinj.1, hrp.2, hpart⟩
+
+open Atlas.Exec in
+/-- **pending_of_dinv**: in every such state `Pending` decides exactly what C09 assumes: the files
+from the first not completely recorded one on (and "no pending files" when there is none). -/
+theorem pending_of_dinv {H : Text → String} {pre rest : List MFile} {w : World} {a e k : Nat}
+    (cfg : Cfg) (hb : cfg.baseline = "") (hc : cfg.clean = true)
+    (inv : DInv H pre rest w a e k) (hr : RInv (pre ++ rest) w.revs)
+    (nock : ∀ f ∈ pre ++ rest, f.checkpoint = false) (hs : SortedV (pre ++ rest)) :
+    (pending cfg (pre ++ rest) w.revs).baselineWrite = none ∧
+    (pending cfg (pre ++ rest) w.revs).out = (if rest = [] then .error .noPending else .ok rest) :=
+  pending_linear cfg pre rest w.revs hb hc (linear_of_dinv inv hr nock hs)
+
+open Atlas.Exec in
+/-- **executeN_eq_attempt**: one `ExecuteN` (all pending files) of the model that the correspondence
+run ties to the code reaches the same state as the attempt of `Props.C09`. -/
+theorem executeN_eq_attempt {H : Text → String} {dir pre rest : List MFile} {w : World} {a e k : Nat}
+    (cfg : Cfg) (hb : cfg.baseline = "") (hc : cfg.clean = true) (hsplit : pre ++ rest = dir)
+    (inv : DInv H pre rest w a e k) (hr : RInv dir w.revs)
+    (nock : ∀ f ∈ dir, f.checkpoint = false) (hs : SortedV dir) (fs : List Nat) :
+    (executeN true H cfg dir 0 { w with tick := 0, faults := fs }).1 = (Props.C09.attempt H dir w fs).1 := by
+  subst hsplit
+  obtain ⟨hbw, hout⟩ := pending_of_dinv cfg hb hc inv hr nock hs
+  unfold executeN Props.C09.attempt
+  rw [Props.C09.pendingSpec_eq inv]
+  simp only [hbw, hout]
+  cases rest with
+  | nil => simp [execFiles]
+  | cons m post => simp
+
+open Atlas.Exec in
+/-- **attempts_eq**: any number of `ExecuteN` calls, each under its own fault schedule, started from
+the empty database, walk through exactly the states of `Props.C09.attempts` – so every C09 theorem
+(`inv_attempts`, `history_le_executed`, `at_most_one_repeat_per_write_fault`, `exactly_once_*`,
+`clean_run_completes`) is a theorem about `Atlas.Exec.attempts`, the model of repeated
+`(*Executor).ExecuteN` runs on a linear, checkpoint-free directory. -/
+theorem attempts_eq {H : Text → String} {dir : List MFile} (cfg : Cfg) (hb : cfg.baseline = "")
+    (hc : cfg.clean = true) (nock : ∀ f ∈ dir, f.checkpoint = false) (hs : SortedV dir) :
+    ∀ (scheds : List (List Nat)) (w : World) (pre rest : List MFile) (a e k : Nat),
+      pre ++ rest = dir → DInv H pre rest w a e k → RInv dir w.revs →
+      (Atlas.Exec.attempts true H cfg dir 0 scheds w).1 = Props.C09.attempts H dir w scheds := by
+  have hnd : (dir.map (·.version)).Nodup := hs.imp (fun h => String.ne_of_lt h)
+  intro scheds
+  induction scheds with
+  | nil => intro w _ _ _ _ _ _ _ _; rfl
+  | cons fs tl ih =>
+    intro w pre rest a e k hsplit inv hr
+    have h1 := executeN_eq_attempt cfg hb hc hsplit inv hr nock hs fs
+    obtain ⟨pre', rest', a', e', k', hs', inv', _⟩ := Props.C09.inv_step hnd hsplit inv fs
+    have hr' : RInv dir (Props.C09.attempt H dir w fs).1.revs := by
+      unfold Props.C09.attempt
+      refine execFiles_rinv true H _ { w with tick := 0, faults := fs } hr ?_
+      intro m hm
+      rw [← hsplit, Props.C09.pendingSpec_eq inv] at hm
+      rw [← hsplit]
+      exact List.mem_append_right _ hm
+    unfold Atlas.Exec.attempts Props.C09.attempts
+    rcases hex : executeN true H cfg dir 0 { w with tick := 0, faults := fs } with ⟨w1, o⟩
+    rw [hex] at h1
+    simp only at h1
+    subst h1
+    simp only
+    rcases hat : Atlas.Exec.attempts true H cfg dir 0 tl (Props.C09.attempt H dir w fs).1 with ⟨w2, os⟩
+    have := ih _ pre' rest' a' e' k' hs' inv' hr'
+    rw [hat] at this
+    exact this
+
+open Atlas.Exec in
+/-- every state reached by repeated `ExecuteN` runs from the empty database is `Reachable` in the sense
+of C09. -/
+theorem executeN_reachable {H : Text → String} {dir : List MFile} (cfg : Cfg) (hb : cfg.baseline = "")
+    (hc : cfg.clean = true) (nock : ∀ f ∈ dir, f.checkpoint = false) (hs : SortedV dir)
+    (scheds : List (List Nat)) :
+    Props.C09.Reachable H dir (Atlas.Exec.attempts true H cfg dir 0 scheds {}).1 :=
+  ⟨scheds, attempts_eq cfg hb hc nock hs scheds {} [] dir 0 0 0 rfl (Props.C09.inv_init H dir) (rinv_nil dir)⟩
+
+/-- non-vacuity: the two-file directory of the C09 examples, three `ExecuteN` runs (the revision write
+after statement A fails; statement B fails; clean run). -/
+example : (Atlas.Exec.attempts true Props.C09.toyH {} Props.C09.dir2 0 [[2], [1], []] {}).1.journal =
+    ["A;".toList, "A;".toList, "B;".toList, "C;".toList] := by decide
+
+/-! ### `atlas migrate set`: model of migrateSetRun composed with `Pending` -/
+
+section SetVersion
+open Atlas.Exec Atlas.SetV
+
+theorem takeWhile_split {α : Type} (p : α → Bool) (l1 l2 : List α) (h1 : ∀ a ∈ l1, p a = true)
+    (h2 : ∀ a, l2.head? = some a → p a = false) : (l1 ++ l2).takeWhile p = l1 := by
+  rw [List.takeWhile_append_of_pos h1]
+  cases l2 with
+  | nil => simp
+  | cons a t => rw [List.takeWhile_cons_of_neg (by simp [h2 a rfl])]; simp
+
+theorem upsert_end (r : Revision) : ∀ (l : List Revision), (∀ x ∈ l, x.version < r.version) →
+    upsert r l = l ++ [r] := by
+  intro l
+  induction l with
+  | nil => intro _; rfl
+  | cons y ys ih =>
+    intro h
+    have hy := h y (List.mem_cons_self ..)
+    unfold upsert
+    have h1 : (y.version == r.version) = false := by simpa using String.ne_of_lt hy
+    have h2 : ¬ r.version < y.version := String.lt_asymm hy
+    simp only [h1, Bool.false_eq_true, if_false, h2]
+    rw [ih (fun x hx => h x (List.mem_cons_of_mem _ hx))]
+    rfl
+
+theorem foldl_upsert_end : ∀ (fs : List MFile) (acc : List Revision),
+    (∀ x ∈ acc, ∀ f ∈ fs, x.version < f.version) → (fs.map (·.version)).Pairwise (· < ·) →
+    fs.foldl (fun acc f => upsert (resolvedRev f) acc) acc = acc ++ fs.map resolvedRev := by
+  intro fs
+  induction fs with
+  | nil => intro acc _ _; simp
+  | cons f t ih =>
+    intro acc h1 h2
+    rw [List.map_cons, List.pairwise_cons] at h2
+    rw [List.foldl_cons, upsert_end (resolvedRev f) acc (fun x hx => h1 x hx f (List.mem_cons_self ..))]
+    rw [ih]
+    · simp
+    · intro x hx g hg
+      rcases List.mem_append.mp hx with hx | hx
+      · exact h1 x hx g (List.mem_cons_of_mem _ hg)
+      · simp at hx; subst hx
+        exact h2.1 _ (List.mem_map_of_mem hg)
+    · exact h2.2
+
+/-- the marking function of `markStep`. -/
+def markF (version : String) (r : Revision) : Revision :=
+  if r.version == version && (r.error != "" || r.total != r.applied) then { r with typ := 6 } else r
+
+theorem markF_version (v : String) (r : Revision) : (markF v r).version = r.version := by
+  unfold markF; split <;> rfl
+
+theorem markF_not_partial (v : String) (r : Revision) (h : r.version = v) : (markF v r).partially = false := by
+  unfold markF
+  by_cases hc : (r.error != "" || r.total != r.applied) = true
+  · simp only [h, beq_self_eq_true, hc, Bool.and_self, if_true]
+    unfold Revision.partially Revision.resolved
+    simp
+  · have hc' : (r.error != "" || r.total != r.applied) = false := by simpa using hc
+    simp only [h, beq_self_eq_true, hc', Bool.and_false, Bool.false_eq_true, if_false]
+    have : r.applied = r.total := by
+      simp at hc'
+      exact hc'.2.symm
+    exact complete_not_partially r this
+
+theorem markStep_eq (v : String) (revs : List Revision) :
+    markStep v revs = (revs.filter (fun r => !(decide (v < r.version)))).map (markF v) := rfl
+
+/-- **set_then_pending**: `atlas migrate set v` on a version-sorted, checkpoint-free directory
+`init ++ z :: rest` (`v` = version of `z`) and ANY history without holes (the revisions are those of a
+prefix `pre0` of the directory – shorter or longer than the target, each revision in any state:
+applied, failed, partially applied), followed by `Pending`: exactly the files after `v` are pending
+(or nothing, if `v` is the last file), for every execution order; the table holds exactly one
+revision per file up to `v`. Status / apply after `set v` therefore agree with what `set` reports. -/
+theorem set_then_pending (cfg : Cfg) (hb : cfg.baseline = "") (hc : cfg.clean = true)
+    (init rest pre0 rest0 : List MFile) (z : MFile) (revs : List Revision)
+    (nock : ∀ f ∈ (init ++ [z]) ++ rest, f.checkpoint = false) (hs : SortedV ((init ++ [z]) ++ rest))
+    (hsplit : pre0 ++ rest0 = (init ++ [z]) ++ rest) (hv0 : revs.map (·.version) = pre0.map (·.version)) :
+    (setRevs ((init ++ [z]) ++ rest) revs z.version).map (·.version) = (init ++ [z]).map (·.version) ∧
+    (pending cfg ((init ++ [z]) ++ rest) (setRevs ((init ++ [z]) ++ rest) revs z.version)).out =
+      (if rest = [] then .error .noPending else .ok rest) := by
+  have hlt := sorted_lt_of_append hs
+  have hsorted := hs
+  unfold SortedV at hsorted
+  rw [List.map_append, List.pairwise_append] at hsorted
+  obtain ⟨hspre, hsrest, _⟩ := hsorted
+  -- every file up to z is ≤ v, every later file is > v
+  have hle : ∀ f ∈ init ++ [z], ¬ z.version < f.version := by
+    intro f hf
+    rw [List.map_append, List.pairwise_append] at hspre
+    rcases List.mem_append.mp hf with hf | hf
+    · exact String.lt_asymm (hspre.2.2 _ (List.mem_map_of_mem hf) z.version (by simp))
+    · simp at hf; subst hf; exact String.lt_irrefl _
+  have hgt : ∀ f ∈ rest, z.version < f.version := fun f hf => hlt z (by simp) f hf
+  have key : (setRevs ((init ++ [z]) ++ rest) revs z.version).map (·.version) = (init ++ [z]).map (·.version) ∧
+      ∀ last, (setRevs ((init ++ [z]) ++ rest) revs z.version).getLast? = some last → last.partially = false := by
+    rcases List.append_eq_append_iff.mp hsplit with ⟨x, hx1, hx2⟩ | ⟨x, hx1, hx2⟩
+    · -- the target lies beyond (or at the end of) the history: init ++ [z] = pre0 ++ x
+      have hall : ∀ r ∈ revs, (!(decide (z.version < r.version))) = true := by
+        intro r hr
+        have : r.version ∈ pre0.map (·.version) := hv0 ▸ List.mem_map_of_mem hr
+        obtain ⟨f, hf, hfv⟩ := List.mem_map.mp this
+        have := hle f (by rw [hx1]; exact List.mem_append_left _ hf)
+        simp [← hfv, this]
+      have hfilter : revs.filter (fun r => !(decide (z.version < r.version))) = revs :=
+        List.filter_eq_self.mpr hall
+      have hrevs1v : (markStep z.version revs).map (·.version) = pre0.map (·.version) := by
+        rw [markStep_eq, hfilter, List.map_map, ← hv0]
+        apply List.map_congr_left
+        intro r _
+        exact markF_version _ r
+      cases x with
+      | nil =>
+        -- pre0 = init ++ [z]: the history ends exactly at v
+        simp only [List.append_nil] at hx1
+        have hne : revs ≠ [] := by
+          intro h; rw [h] at hv0; rw [← hx1] at hv0; simp at hv0
+        have hlastv : ∀ last, (markStep z.version revs).getLast? = some last → last.version = z.version := by
+          intro last hl
+          have : ((markStep z.version revs).map (·.version)).getLast? = some last.version := by
+            rw [List.getLast?_map, hl]; rfl
+          rw [hrevs1v, ← hx1] at this
+          simpa using this.symm
+        have hrec : toRecord ((init ++ [z]) ++ rest) (markStep z.version revs) z.version = [] := by
+          unfold toRecord
+          cases hl : (markStep z.version revs).getLast? with
+          | none =>
+            have : markStep z.version revs = [] := by simpa using hl
+            rw [this] at hrevs1v; rw [← hx1] at hrevs1v; simp at hrevs1v
+          | some last =>
+            simp only
+            rw [hlastv last hl]
+            simp
+        have hset : setRevs ((init ++ [z]) ++ rest) revs z.version = markStep z.version revs := by
+          unfold setRevs; simp only [hrec, List.foldl_nil]
+        rw [hset]
+        refine ⟨by rw [hrevs1v, hx1], ?_⟩
+        intro last hl
+        rw [markStep_eq, hfilter, List.getLast?_map] at hl
+        cases hr : revs.getLast? with
+        | none => rw [hr] at hl; cases hl
+        | some r0 =>
+          rw [hr] at hl
+          simp only [Option.map_some, Option.some.injEq] at hl
+          subst hl
+          have : r0.version = z.version := by
+            have h1 : (revs.map (·.version)).getLast? = some r0.version := by rw [List.getLast?_map, hr]; rfl
+            rw [hv0, ← hx1] at h1
+            simpa using h1.symm
+          exact markF_not_partial _ r0 this
+      | cons y ys =>
+        -- init ++ [z] = pre0 ++ (y :: ys): files y :: ys get resolved revisions
+        have hxl : (y :: ys).getLast? = some z := by
+          have := congrArg List.getLast? hx1
+          simpa using this.symm
+        have hpre0lt : ∀ f ∈ pre0, ∀ g ∈ y :: ys, f.version < g.version := by
+          intro f hf g hg
+          have := hspre
+          rw [hx1, List.map_append, List.pairwise_append] at this
+          exact this.2.2 _ (List.mem_map_of_mem hf) _ (List.mem_map_of_mem hg)
+        have hxsorted : ((y :: ys).map (·.version)).Pairwise (· < ·) := by
+          have := hspre
+          rw [hx1, List.map_append, List.pairwise_append] at this
+          exact this.2.1
+        have hrec : toRecord ((init ++ [z]) ++ rest) (markStep z.version revs) z.version = y :: ys := by
+          unfold toRecord
+          cases hl : (markStep z.version revs).getLast? with
+          | none =>
+            simp only
+            have hnil : markStep z.version revs = [] := by simpa using hl
+            have hp0 : pre0 = [] := by
+              rw [hnil] at hrevs1v; simpa using hrevs1v.symm
+            rw [takeWhile_split _ (init ++ [z]) rest (fun f hf => by simp [hle f hf])
+              (fun f hf => by simp [hgt f (List.mem_of_mem_head? hf)])]
+            rw [hx1, hp0]; rfl
+          | some last =>
+            simp only
+            have hlv : ((markStep z.version revs).map (·.version)).getLast? = some last.version := by
+              rw [List.getLast?_map, hl]; rfl
+            rw [hrevs1v, List.getLast?_map] at hlv
+            cases hp : pre0.getLast? with
+            | none => rw [hp] at hlv; cases hlv
+            | some pl =>
+              rw [hp] at hlv
+              simp only [Option.map_some, Option.some.injEq] at hlv
+              have hplm : pl ∈ pre0 := List.mem_of_getLast? hp
+              have hltv : last.version < z.version := by
+                rw [← hlv]; exact hpre0lt pl hplm z (List.mem_of_getLast? hxl)
+              simp only [hltv, decide_true, if_true]
+              rw [takeWhile_split _ (init ++ [z]) rest (fun f hf => by simp [hle f hf])
+                (fun f hf => by
+                  have h1 := hgt f (List.mem_of_mem_head? hf)
+                  have h2 : last.version < f.version := String.lt_trans hltv h1
+                  simp [h1, h2])]
+              rw [hx1, List.filter_append]
+              have hf1 : pre0.filter (fun f => !(decide (f.version ≤ last.version))) = [] := by
+                rw [List.filter_eq_nil_iff]
+                intro f hf
+                have hsp0 : (pre0.map (·.version)).Pairwise (· < ·) := by
+                  have := hspre
+                  rw [hx1, List.map_append, List.pairwise_append] at this
+                  exact this.1
+                have : ¬ pl.version < f.version := by
+                  obtain ⟨ini, hini⟩ : ∃ ini, pre0 = ini ++ [pl] :=
+                    ⟨pre0.dropLast, by
+                      have hne : pre0 ≠ [] := by intro h; rw [h] at hp; cases hp
+                      have := (List.dropLast_concat_getLast hne).symm
+                      rw [this]; congr 2
+                      have h2 := List.getLast?_eq_some_getLast hne
+                      rw [hp] at h2; exact (Option.some.inj h2).symm⟩
+                  rw [hini, List.map_append, List.pairwise_append] at hsp0
+                  rw [hini] at hf
+                  rcases List.mem_append.mp hf with hf | hf
+                  · exact String.lt_asymm (hsp0.2.2 _ (List.mem_map_of_mem hf) pl.version (by simp))
+                  · simp at hf; subst hf; exact String.lt_irrefl _
+                rw [← hlv]
+                simpa using this
+              have hf2 : (y :: ys).filter (fun f => !(decide (f.version ≤ last.version))) = y :: ys := by
+                rw [List.filter_eq_self]
+                intro f hf
+                have : last.version < f.version := by rw [← hlv]; exact hpre0lt pl hplm f hf
+                simpa using this
+              rw [hf1, hf2]; rfl
+        have hset : setRevs ((init ++ [z]) ++ rest) revs z.version =
+            markStep z.version revs ++ (y :: ys).map resolvedRev := by
+          unfold setRevs
+          simp only [hrec]
+          apply foldl_upsert_end _ _ _ hxsorted
+          intro r hr g hg
+          have : r.version ∈ pre0.map (·.version) := hrevs1v ▸ List.mem_map_of_mem hr
+          obtain ⟨f, hf, hfv⟩ := List.mem_map.mp this
+          rw [← hfv]; exact hpre0lt f hf g hg
+        rw [hset]
+        refine ⟨?_, ?_⟩
+        · rw [List.map_append, hrevs1v, hx1, List.map_append, List.map_map]
+          rfl
+        · intro last hl
+          rw [List.getLast?_append, List.getLast?_map, hxl] at hl
+          simp only [Option.map_some, Option.some_or, Option.some.injEq] at hl
+          subst hl
+          exact complete_not_partially _ rfl
+    · -- the history reaches beyond the target: pre0 = (init ++ [z]) ++ x, the rows of x are deleted
+      have hvsplit : revs.map (·.version) = (init ++ [z]).map (·.version) ++ x.map (·.version) := by
+        rw [hv0, hx1, List.map_append]
+      -- split revs accordingly
+      have hlen : (revs.take (init ++ [z]).length).map (·.version) = (init ++ [z]).map (·.version) ∧
+          (revs.drop (init ++ [z]).length).map (·.version) = x.map (·.version) := by
+        have h1 := congrArg (List.take (init ++ [z]).length) hvsplit
+        have h2 := congrArg (List.drop (init ++ [z]).length) hvsplit
+        rw [← List.map_take] at h1
+        rw [← List.map_drop] at h2
+        constructor
+        · rw [h1, List.take_left']; simp
+        · rw [h2, List.drop_left']; simp
+      have hxin : ∀ f ∈ x, f ∈ rest := by
+        intro f hf; rw [hx2]; exact List.mem_append_left _ hf
+      have hfilter : revs.filter (fun r => !(decide (z.version < r.version))) = revs.take (init ++ [z]).length := by
+        conv => lhs; rw [← List.take_append_drop (init ++ [z]).length revs]
+        rw [List.filter_append]
+        have h1 : (revs.take (init ++ [z]).length).filter (fun r => !(decide (z.version < r.version))) =
+            revs.take (init ++ [z]).length := by
+          rw [List.filter_eq_self]
+          intro r hr
+          have : r.version ∈ (init ++ [z]).map (·.version) := hlen.1 ▸ List.mem_map_of_mem hr
+          obtain ⟨f, hf, hfv⟩ := List.mem_map.mp this
+          simp [← hfv, hle f hf]
+        have h2 : (revs.drop (init ++ [z]).length).filter (fun r => !(decide (z.version < r.version))) = [] := by
+          rw [List.filter_eq_nil_iff]
+          intro r hr
+          have : r.version ∈ x.map (·.version) := hlen.2 ▸ List.mem_map_of_mem hr
+          obtain ⟨f, hf, hfv⟩ := List.mem_map.mp this
+          simp [← hfv, hgt f (hxin f hf)]
+        rw [h1, h2, List.append_nil]
+      have hrevs1v : (markStep z.version revs).map (·.version) = (init ++ [z]).map (·.version) := by
+        rw [markStep_eq, hfilter, List.map_map, ← hlen.1]
+        apply List.map_congr_left
+        intro r _
+        exact markF_version _ r
+      have hlastv : ∀ last, (markStep z.version revs).getLast? = some last → last.version = z.version := by
+        intro last hl
+        have : ((markStep z.version revs).map (·.version)).getLast? = some last.version := by
+          rw [List.getLast?_map, hl]; rfl
+        rw [hrevs1v] at this
+        simpa using this.symm
+      have hrec : toRecord ((init ++ [z]) ++ rest) (markStep z.version revs) z.version = [] := by
+        unfold toRecord
+        cases hl : (markStep z.version revs).getLast? with
+        | none =>
+          have : markStep z.version revs = [] := by simpa using hl
+          rw [this] at hrevs1v; simp at hrevs1v
+        | some last =>
+          simp only
+          rw [hlastv last hl]
+          simp
+      have hset : setRevs ((init ++ [z]) ++ rest) revs z.version = markStep z.version revs := by
+        unfold setRevs; simp only [hrec, List.foldl_nil]
+      rw [hset]
+      refine ⟨hrevs1v, ?_⟩
+      intro last hl
+      rw [markStep_eq, hfilter, List.getLast?_map] at hl
+      cases hr : (revs.take (init ++ [z]).length).getLast? with
+      | none => rw [hr] at hl; cases hl
+      | some r0 =>
+        rw [hr] at hl
+        simp only [Option.map_some, Option.some.injEq] at hl
+        subst hl
+        have : r0.version = z.version := by
+          have h1 : ((revs.take (init ++ [z]).length).map (·.version)).getLast? = some r0.version := by
+            rw [List.getLast?_map, hr]; rfl
+          rw [hlen.1] at h1
+          simpa using h1.symm
+        exact markF_not_partial _ r0 this
+  refine ⟨key.1, ?_⟩
+  exact (pending_linear cfg (init ++ [z]) rest _ hb hc ⟨nock, hs, .inl ⟨key.1, key.2⟩⟩).2
+
+/-- non-vacuity: file 2 failed after one of two statements; `migrate set 3` steps over it (its row
+stays as it is), records file 3 as resolved, and only file 4 remains pending. -/
+example :
+    let dir : List MFile := [⟨"1_a.sql", "1", "a", [], false, ""⟩, ⟨"2_b.sql", "2", "b", [], false, ""⟩,
+      ⟨"3_c.sql", "3", "c", [], false, ""⟩, ⟨"4_d.sql", "4", "d", [], false, ""⟩]
+    let revs : List Revision := [{ version := "1", applied := 2, total := 2 },
+      { version := "2", applied := 1, total := 2, error := "boom" }]
+    ((Atlas.SetV.setRevs dir revs "3").map (fun r => (r.version, r.typ, r.applied, r.total)) =
+        [("1", 2, 2, 2), ("2", 2, 1, 2), ("3", 4, 0, 0)]) ∧
+    (match (pending {} dir (Atlas.SetV.setRevs dir revs "3")).out with
+     | .ok l => l.map (·.version) | .error _ => []) = ["4"] := by decide
+
+/-- … and `migrate set 2` on the same history marks the failed row `Execute|Resolved` (6). -/
+example :
+    let dir : List MFile := [⟨"1_a.sql", "1", "a", [], false, ""⟩, ⟨"2_b.sql", "2", "b", [], false, ""⟩,
+      ⟨"3_c.sql", "3", "c", [], false, ""⟩]
+    let revs : List Revision := [{ version := "1", applied := 2, total := 2 },
+      { version := "2", applied := 1, total := 2, error := "boom" }]
+    ((Atlas.SetV.setRevs dir revs "2").map (fun r => (r.version, r.typ, r.applied, r.total)) =
+        [("1", 2, 2, 2), ("2", 6, 1, 2)]) ∧
+    (match (pending {} dir (Atlas.SetV.setRevs dir revs "2")).out with
+     | .ok l => l.map (·.version) | .error _ => []) = ["3"] := by decide
+
+end SetVersion
 
 end Props.C11
